@@ -699,9 +699,10 @@ func writeChunkedSegment(ctx context.Context, log *slog.Logger, w http.ResponseW
 	// The rest are returned HTTP chunks as time passes.
 	// In general, we should extract all the samples and build a new one with the right fragment duration.
 	// That fragment/chunk duration is segment_duration-availabilityTimeOffset.
-	chunkDur := (a.SegmentDurMS - int(cfg.AvailabilityTimeOffsetS*1000)) * int(rep.MediaTimescale) / 1000
+	// It is this segment's duration that counts (segment durations may vary within an asset).
+	chunkDur := int(so.meta.newDur) - int(cfg.AvailabilityTimeOffsetS*1000)*int(rep.MediaTimescale)/1000
 	if chunkDur <= 0 {
-		return fmt.Errorf("availabilityTimeOffset %.3fs leaves no chunk duration for %dms segments", cfg.AvailabilityTimeOffsetS, a.SegmentDurMS)
+		return fmt.Errorf("availabilityTimeOffset %.3fs leaves no chunk duration for a segment of %d ticks", cfg.AvailabilityTimeOffsetS, so.meta.newDur)
 	}
 	chunks, err := chunkSegment(rep.initSeg, seg, so.meta, chunkDur)
 	if err != nil {
